@@ -494,6 +494,9 @@ func (x *Exec) execCall(fr *Frame, st *State, instr ssa.Instruction, c *ssa.Call
 			}
 		}
 	}
+	if strings.HasSuffix(key, "/search.NewExplanation") && fr.root {
+		x.checkExplanationMessage(fr, st, instr, c)
+	}
 	// argument values
 	var args []Val
 	var argAddrs []*Addr
@@ -589,6 +592,10 @@ func (x *Exec) applyContract(fr *Frame, st *State, instr ssa.Instruction, callee
 	}
 	if spec.Ext {
 		x.trusted[spec.Key] = true
+	} else if spec.Trusted {
+		x.trusted[spec.Key+" (trusted: body not verified)"] = true
+	} else if spec.Iface {
+		x.trusted[spec.Key+" (interface contract: assumed of every implementation)"] = true
 	}
 	pre := st.clone()
 	ctx := &EvalCtx{x: x, names: env, st: st, old: pre, oldNames: env}
